@@ -65,6 +65,9 @@ def build_source(spec, pose=True):
         if cls == "CustomSource":
             obj = magpy.misc.CustomSource(field_func=custom_func(spec.get("func")))
         else:
+            if cls == "TriangularMesh" and spec.get("mesh_checks") == "skip":
+                # construction without any of the (lazy, cached) status checks; the generated faces are already outward
+                kw.update(check_open="skip", check_disconnected="skip", check_selfintersecting="skip", reorient_faces="skip")
             obj = CLASSES[cls](**kw)
     if pose:
         apply_pose(obj, spec)
@@ -204,6 +207,13 @@ def snapshot_obj(o, style=True):
             elif isinstance(v, (list, tuple)):
                 v = snap_array(np.asarray(v))
             s[k] = v
+    if type(o).__name__ == "TriangularMesh":
+        # lazily computed, cached status of the mesh: part of the object's observable state (status_* properties)
+        for k in ("_status_open", "_status_disconnected", "_status_selfintersecting", "_status_reoriented"):
+            s[k] = getattr(o, k, None)
+        for k in ("_status_open_data", "_status_disconnected_data", "_status_selfintersecting_data"):
+            v = getattr(o, k, None)
+            s[k] = None if v is None else snap_array(np.asarray(v, dtype=float) if not isinstance(v, list) else np.asarray([np.asarray(x, dtype=float).ravel().tolist() for x in v], dtype=object).astype(str))
     if hasattr(o, "_field_func"):
         ff = getattr(o, "_field_func")
         s["field_func"] = id(ff) if type(o).__name__ == "CustomSource" else None
